@@ -351,6 +351,21 @@ def Crash (t : Trace) (k : Nat) (img : Img) : Prop :=
   (∃ jl, LenOK t k jl ∧ img.len = (vol t jl).len) ∧
   ∀ s, ∃ j, VerOK t k s j ∧ ∀ i, i / kSector = s → i < img.len → img.get i = (vol t j).get i
 
+/-- decidable form of `VerOK` (used by the driver's enumeration) -/
+def verOKB (t : Trace) (k s j : Nat) : Bool :=
+  decide (j ≤ k) && (List.range (k + 1)).all fun y =>
+    !(decide (j < y) && decide (y ≤ k)) || !((t.getD (y - 1) .close).covers (vol t y).len s)
+
+/-- decidable form of `LenOK` -/
+def lenOKB (t : Trace) (k jl : Nat) : Bool :=
+  decide (jl ≤ k) && (List.range (k + 1)).all fun y =>
+    !(decide (jl < y) && decide (y ≤ k)) || !((t.getD (y - 1) .close).isSync)
+
+/-- the image with the length of version `jl` and sector `s` at version `choice s`; `vols j` is the
+volatile image after `j` events (the driver passes a table of them) -/
+def crashImage (vols : Nat → Img) (jl : Nat) (choice : Nat → Nat) : Img :=
+  ⟨(vols jl).len, fun i => (vols (choice (i / kSector))).get i⟩
+
 /-- the binary format as far as C09 needs it: the reference `Sanity` bytes (regenerated),
 `kMagicIncomplete`, the total header size of this build, the size the header announces
 (`LoadBinary`'s `total_map`, as a function of the header bytes) and the remaining header
